@@ -1,0 +1,6 @@
+//go:build !verif
+// +build !verif
+
+package sm4
+
+func verifGate(site string, dst []byte) {}
